@@ -113,6 +113,9 @@ func indProp(ind reg.Ind) engine.AnyProp {
 			cfg := ind.GenConfig(t, 0)
 			w := ind.Idle(cfg)
 			n := rapid.IntRange(0, 3*w+20).Draw(t, "n")
+			if engine.OncePerRun("C04-long/" + ind.Name) {
+				n = 1<<15 + w + 40 // once per run: a cut deep inside a long series
+			}
 			return IndCase{Cfg: cfg, Bars: genBars(t, n), M: genCut(t, n, w), Suffix: genBars(t, rapid.IntRange(0, w+12).Draw(t, "ns"))}
 		},
 		Check: func(c IndCase) engine.Outcome {
@@ -190,6 +193,9 @@ func baseStratProp(st sreg.Strat) engine.AnyProp {
 			tr := sreg.Tree{Op: "leaf", Leaf: st.Name, Cfg: st.GenConfig(t)}
 			w := tr.Warm()
 			n := rapid.IntRange(0, 3*w+20).Draw(t, "n")
+			if engine.OncePerRun("C04-long/strategy/" + st.Name) {
+				n = 1<<15 + w + 40
+			}
 			return StratCase{Tree: tr, Bars: genBars(t, n), M: genCut(t, n, w), Suffix: genBars(t, rapid.IntRange(0, w+12).Draw(t, "ns"))}
 		},
 		Check: stratCheck,
